@@ -13,6 +13,10 @@
 //   vread <count...> ; <offset...>            DataView::getData(Int64, buf, count, offset) -> "[ ids ]"
 //   vwrite <count...> ; <offset...> ; <v0>    DataView::setData(Int64, buf, count, offset) with buf = v0, v0+1, ...
 //   aread                                     whole array (shows the frame condition)
+//   vget <s|n> ; <offset...>                  the TEMPLATE DataSet::getData(T &value, offset) through the view: value = one int64_t (s)
+//                                             on the heap, or a std::vector<int64_t> of n elements (capacity n)
+//   vset <s|n> ; <offset...> ; <v0>           the TEMPLATE DataSet::setData(const T &value, offset), value(s) v0, v0+1, ...
+//   aget / aset                               the same calls on the DataArray itself (control)
 // Doubles as d:<16 hex>; integers decimal or 0x-hex; units as plain tokens (none, s, ms, ...).
 #include "common.hpp"
 #include <nix/util/dataAccess.hpp>
@@ -163,6 +167,29 @@ static std::string handle(const std::vector<std::string> &t) {
         std::vector<int64_t> buf(n + 1, SENTINEL);
         arr.getData(DataType::Int64, buf.data(), ext, NDSize(ext.size(), 0));
         return show_vals(buf, n);
+    }
+    if (c == "vget" || c == "vset" || c == "aget" || c == "aset") {
+        Sections s = sections(t, 1);
+        const std::string &kind = s.at(0).at(0);
+        NDSize off = ndsize(s.at(1));
+        bool on_view = c[0] == 'v';
+        if (on_view && !view) throw std::logic_error("no view");
+        nix::DataSet &ds = on_view ? static_cast<nix::DataSet &>(*view) : static_cast<nix::DataSet &>(arr);
+        bool get = c[1] == 'g';
+        long long v0 = get ? 0 : dec_int(s.at(2).at(0));
+        if (kind == "s") {
+            // one element on the heap: a transfer of more than one element is a heap-buffer-overflow ASan sees
+            std::unique_ptr<int64_t> px(new int64_t(get ? SENTINEL : static_cast<int64_t>(v0)));
+            if (get) { ds.getData(*px, off); return "[ " + std::to_string(static_cast<long long>(*px)) + " ]"; }
+            ds.setData(*px, off);
+            return "done";
+        }
+        size_t n = static_cast<size_t>(dec_u64(kind));
+        std::vector<int64_t> vec(n, SENTINEL);      // capacity == size
+        if (get) { ds.getData(vec, off); return show_vals(vec, n); }
+        for (size_t i = 0; i < n; i++) vec[i] = static_cast<int64_t>(v0 + static_cast<long long>(i));
+        ds.setData(vec, off);
+        return "done";
     }
     if (!view) throw std::logic_error("no view");
     if (c == "vextent") return show_nd(view->dataExtent());
